@@ -180,25 +180,27 @@ Definition ex_fiber : fiber :=
           [(10, 3 # 2); (25, 2)] 193414489032258
           (DispScalar (167 # 10000000) (Some 60)) (1265 # 1000000000000000000) (1468 # 1000).
 
+Ltac vc := vm_compute; reflexivity.
+
 Example ex_budget_hyps : exists a out,
   lumped_in_range ex_fiber = true /\ distinct_positions (map fst (f_lumped ex_fiber)) = true /\
   loss_coef_at ex_fiber 194500000000000 = Ok a /\ a == 39 # 200000 /\
   fiber_power_out ex_fiber 194500000000000 0 = Ok out /\ out == - (213 # 10).
-Proof. do 2 eexists. repeat split; vm_compute; reflexivity. Qed.
+Proof. do 2 eexists. split; [vc|]. split; [vc|]. split; [vc|]. split; [vc|]. split; vc. Qed.
 
 Example ex_path :
   exists r, propagate_path 3 [EFiber ex_fiber; EAmp (1 # 10) (1 # 2); ERoadm [(None, 3 # 10)] [(None, 3 # 2)]; EOther; EFiber wit_fiber]
                            194500000000000 (mkA 0 0 0 0) = Ok r /\ a_pdl2 r == 5 # 2 /\ 0 < a_cd r.
-Proof. eexists. split; [vm_compute; reflexivity|]. split; vm_compute; reflexivity. Qed.
+Proof. eexists. split; [vc|]. split; vc. Qed.
 
 Example ex_euler_lumped_once :
   distinct_positions (map fst [(25000, 7 # 10); (50000, 1 # 2)]) = true /\
   qprod (map snd (removelast (merge_grid 1 [(25000, 7 # 10); (50000, 1 # 2)] (solver_grid 100 10000 80000)))) == 7 # 20.
-Proof. split; vm_compute; reflexivity. Qed.
+Proof. split; vc. Qed.
 
 Definition ex_grid : list (Q * Q) := merge_grid 1 [(25000, 7 # 10)] (solver_grid 100 10000 80000).
 Definition ex_loss : list Q := euler_g [1 # 20000; 1 # 25000] [[0; 1 # 3]; [- (1 # 3); 0]] [0; 0] ex_grid [1; 1].
 Example ex_euler_zero :
   nth 0 ex_loss 0 == grid_factor (1 # 20000) ex_grid /\ nth 1 ex_loss 0 == grid_factor (1 # 25000) ex_grid /\
-  0 < nth 0 ex_loss 0 < 7 # 10.
-Proof. repeat split; vm_compute; reflexivity. Qed.
+  0 < nth 0 ex_loss 0 /\ nth 0 ex_loss 0 < 7 # 10.
+Proof. split; [vc|]. split; [vc|]. split; vc. Qed.
